@@ -79,6 +79,7 @@ type echoResult struct {
 	calls         int64
 	cluster       *fakenode.Cluster
 	conservation  []string
+	recvStalls    []string
 	afterClose    []string
 	dataConns     []*fakenode.ServerConn
 	wireProblems  []wireProblem
@@ -594,6 +595,7 @@ func runEcho(c *runner.Ctx, ec *echoCfg) *echoResult {
 	en.mu.Unlock()
 	// quiescent-point checks while the session is still open (C06)
 	if ec.closeSessionAfter < 0 {
+		res.recvStalls = echoReceiveStall(cl)
 		res.conservation = echoConservation(sess, cl)
 	}
 	for _, sc := range cl.AllConns() {
@@ -643,6 +645,44 @@ func r2(r *rand.Rand, g int) *rand.Rand {
 	r2mu.Lock()
 	defer r2mu.Unlock()
 	return rand.New(rand.NewSource(r.Int63() + int64(g)))
+}
+
+// echoReceiveStall: the driver must keep reading what the node sent. A connection whose driver end is open, has
+// bytes waiting to be read, and has not read a single byte over 150 consecutive polls (>= 3 s) has a receive
+// loop that is stuck (nothing in the driver makes the receive loop wait for a caller that long: every caller is
+// either waiting for its response or has said it left). Costs nothing when no bytes are waiting.
+func echoReceiveStall(cl *fakenode.Cluster) []string {
+	type st struct {
+		read  int64
+		polls int
+	}
+	seen := map[*fakenode.ServerConn]*st{}
+	for poll := 0; poll < 160; poll++ {
+		waiting := false
+		for _, sc := range cl.AllConns() {
+			if sc.Driver.Closed() || sc.C.Closed() || sc.Driver.Pending() == 0 {
+				delete(seen, sc)
+				continue
+			}
+			waiting = true
+			rc := sc.Driver.ReadCount()
+			x := seen[sc]
+			if x == nil || x.read != rc {
+				seen[sc] = &st{read: rc}
+				continue
+			}
+			x.polls++
+			if x.polls >= 150 {
+				return []string{fmt.Sprintf("connection #%d to %s (control=%v): %d bytes from the node have been waiting for >= 150 polls (3 s) while the driver's end is open and its receive loop has not read a byte (%d requests on it are unanswered from the driver's point of view)",
+					sc.Index, sc.Node.IP, sc.Control(), sc.Driver.Pending(), sc.Outstanding())}
+			}
+		}
+		if !waiting {
+			return nil
+		}
+		time.Sleep(20 * time.Millisecond)
+	}
+	return nil
 }
 
 // echoConservation: at a stable quiescent point every open data connection has
